@@ -273,6 +273,11 @@ func runC05(r *simkit.Run) {
 				}
 			case *p2pmsg.Commitment:
 				strs := []string{"", "0x", "zz", "00", "0x00", hex.EncodeToString(bytes.Repeat([]byte{1}, 64)), hex.EncodeToString(bytes.Repeat([]byte{1}, 65)), hex.EncodeToString(bytes.Repeat([]byte{27}, 66))}
+				// strings of exactly the right length that are not hex all the way through, with and
+				// without (repeated) 0x prefixes: decoders that stop at the first non-hex character or
+				// strip prefixes return fewer bytes than the length suggests
+				h128 := hex.EncodeToString(bytes.Repeat([]byte{0x1b}, 64))
+				strs = append(strs, "0x"+h128+"zz", h128+"zz", "0x0x"+h128, "0x"+h128[:100]+"g"+h128[101:]+"1b", "0X"+h128+"1b", "0x"+h128+"1")
 				switch c.Intn(6, "mut-commitment") {
 				case 0:
 					x.ReceivedBidSignature = simkit.Pick(c, strs, "bidsig")
